@@ -42,3 +42,50 @@ Theorem C10_invariant :
   forall E ops m0, inv_sys (run_ops Fexp E ops (mkSys (create m0) [])).
 Proof. exact (fun E ops m0 => inv_run_ops E ops _ (inv_initial m0)). Qed.
 Print Assumptions C10_invariant.
+
+(* ---------------------------------------------------------------------------------------------------------------
+   The state machine instantiated with the concrete stage models (Proofs/TokStateConcrete.v): its abstract
+   parameters are given by Tokenizer.tokenize_model's stages (builder A: input-text plugins committed through the
+   buffer model, dictionary + OOV candidates, Viterbi, resolve_best_path, Rewrite.run_plugins) with word infos read
+   under the loaded subset (builder B's SubsetPipeline: getinfo L w) and Split.tokenize_mode.  `base` = everything of
+   the tokenizer that no operation changes, `gi` = LexiconSet::get_word_info_subset, `tk_at base gi mode L` = A's
+   tokenizer record for that mode and loaded subset, `report_probe` = what Morpheme::{begin, end, begin_c, end_c,
+   surface, word_id} report for the collected probe. *)
+From SudachiVerif Require Import Proofs.TokStateConcrete.
+
+(* fact obligation: the regenerated buffer constants are the ones the buffer theorems need and its two length guards are
+   the ones ResetFacts records for the state machine *)
+Fact C10_buffer_facts_agree : cfg_agrees = true.
+Proof. vm_compute. reflexivity. Qed.
+
+(* after ANY finite sequence of operations on the instantiated machine, the probe is Tokenizer.tokenize_model run from
+   scratch with the tokenizer's mode and accumulated field request: C10 and C01's end-to-end theorem speak about the
+   same function *)
+Theorem C10_history_independent_concrete :
+  forall base gi ops m0 t,
+    let y := run_ops F0 (E_conc base gi) ops (mkSys (create m0) []) in
+    report_probe (probe F0 (E_conc base gi) t (tk y)) =
+    Tokenizer.tokenize_model cfg (tk_at base gi (smode (mode (tk y))) (subset (tk y))) t.
+Proof. exact (history_independent_concrete C10_buffer_facts_agree C10_facts). Qed.
+Print Assumptions C10_history_independent_concrete.
+
+(* the analyses that answer with an error value are exactly those for which tokenize_model answers Err (input too long
+   at start_build, too long after rewriting at commit, lattice that cannot be connected) ... *)
+Theorem C10_error_outcomes_concrete :
+  forall base gi ops m0 t,
+    let y := run_ops F0 (E_conc base gi) ops (mkSys (create m0) []) in
+    fst (analyse F0 (E_conc base gi) t (tk y)) = RErr <->
+    Tokenizer.tokenize_model cfg (tk_at base gi (smode (mode (tk y))) (subset (tk y))) t = Buffer.Err.
+Proof. exact (error_outcomes_concrete C10_buffer_facts_agree C10_facts). Qed.
+Print Assumptions C10_error_outcomes_concrete.
+
+(* ... and after any failed analysis (error value or panic) the next probe is again tokenize_model from scratch *)
+Theorem C10_failed_analysis_usable_concrete :
+  forall base gi ops m0 t1 t,
+    let y := run_ops F0 (E_conc base gi) ops (mkSys (create m0) []) in
+    let s1 := snd (analyse F0 (E_conc base gi) t1 (tk y)) in
+    fst (analyse F0 (E_conc base gi) t1 (tk y)) <> ROk ->
+    report_probe (probe F0 (E_conc base gi) t s1) =
+    Tokenizer.tokenize_model cfg (tk_at base gi (smode (mode (tk y))) (subset (tk y))) t.
+Proof. exact (failed_analysis_usable_concrete C10_buffer_facts_agree C10_facts). Qed.
+Print Assumptions C10_failed_analysis_usable_concrete.
